@@ -590,6 +590,8 @@ def regline_of(ops):
 
 
 REG_CORPUS = [
+    # seeded C37-e (named values): r2 = r0 + r1 and r0 += r1 with r1 abutting the end of r0
+    [("set", 0, [(0, 4)]), ("one", 1, 4, 2), ("or", 2, 0, 1), ("c", 2, 2, 4), ("len", 2), ("iadd", 0, 1), ("c", 0, 0, 6), ("add", 0, 8, 1), ("len", 0)],
     # repaired defect (/repo 13d6c66): `a -= a` / `a += a` iterated over the list being mutated
     [("set", 0, [(0, 1), (2, 1), (4, 1), (6, 1)]), ("copy", 1, 0), ("isub", 0, 0), ("len", 0), ("iadd", 1, 1), ("len", 1), ("c", 1, 2, 1)],
     # r2 = r0 - (empty); r2.add(...) must not change r0  (seeded change C37-b: __sub__ returning self)
@@ -623,6 +625,9 @@ def self_operand_probe(ctx):
 
 # fixed corpus: boundary shapes of every branch (run first)
 SPANS_CORPUS = [
+    # seeded C37-e: `+` / `+=` with an operand that starts exactly where my last span ends must merge the two
+    [("a", 0, 4), ("u", [(4, 2)], 1, "+"), ("c", 0, 6), ("c", 3, 2), ("l",), ("u", [(6, 1), (9, 2)], 3, "+="), ("c", 0, 7), ("l",),
+     ("u", [(20, 2)], 2, "+="), ("u", [(11, 1)], 0, "+"), ("c", 9, 3), ("a", 30, 1), ("l",)],
     [("a", 5, 5), ("a", 10, 2), ("a", 3, 2), ("a", 20, 1), ("a", 0, 30), ("l",), ("c", 0, 30), ("c", 0, 31)],
     [("a", 0, 10), ("r", 3, 4), ("r", 0, 3), ("r", 9, 5), ("r", 7, 2), ("l",), ("c", 7, 1)],
     [("a", 0, 4), ("a", 6, 4), ("a", 12, 4), ("r", 2, 12), ("a", 4, 2), ("i", [(1, 2), (7, 20)], 1), ("l",)],
